@@ -90,9 +90,24 @@ fn generate_indirect_store_item(structitems: &[DataItem]) -> Vec<TokenStream> {
         stored_structitems.push(match &item.basetype {
             BaseType::Sequence { seqtype } => {
                 let itemname = format_ident!("{}", item.varname.as_ref().unwrap());
-                let locationinfo = quote! {(*#location.get(idx).unwrap_or_else(|| &0))};
+                // the location of an integer is (line, is_hex), of everything else it is only the line
+                let locationinfo = quote! {(#location.get(idx).copied().unwrap_or_default())};
+                // numbers are stored by value, so the reference yielded by iter() must be dereferenced
+                let seqitem = match &**seqtype {
+                    BaseType::Char
+                    | BaseType::Int
+                    | BaseType::Long
+                    | BaseType::Int64
+                    | BaseType::Uchar
+                    | BaseType::Uint
+                    | BaseType::Ulong
+                    | BaseType::Uint64
+                    | BaseType::Double
+                    | BaseType::Float => quote! {(*item)},
+                    _ => quote! {item},
+                };
                 let parsercall =
-                    generate_indirect_store_simple_item(&quote! {item}, &locationinfo, seqtype);
+                    generate_indirect_store_simple_item(&seqitem, &locationinfo, seqtype);
                 storageidx += 1;
                 quote! {a2lfile::GenericIfData::Sequence({
                     let mut sequence_content = Vec::new();
